@@ -123,7 +123,7 @@ int fff_lapack_dgesdd( fff_matrix* A, fff_vector* s, fff_matrix* U, fff_matrix* 
   int a1 = FFF_SQR(dmin);
   int a2 = 4*(a1+dmin);
   int lwork_min = 3*a1 + FFF_MAX(dmax, a2);
-  int lda = (int)Aux->tda;
+  int lda = (int)A->tda; /* leading dimension of A**t as stored, not of Aux */
   int ldu = (int)U->tda;
   int ldvt = (int)Vt->tda;
   int lwork = work->size;
